@@ -6,6 +6,7 @@ import (
 	"errors"
 	"fmt"
 	"io"
+	"time"
 
 	"verifharness/internal/rep"
 
@@ -139,6 +140,26 @@ func c18(args []string) error {
 						}
 						w.Write(packs[s.O])
 						open[s.W] = w
+					}
+				case "setpack":
+					w, err := st.PackfileWriter()
+					if err != nil {
+						return fmt.Errorf("PackfileWriter: %v", err)
+					}
+					w.Write(packs[s.O])
+					if err := w.Close(); err != nil {
+						ok = false
+						r.Extra["close_errors"] = fmt.Sprint(err)
+						continue
+					}
+				case "droppack":
+					// the pack id is the trailer of the pack bytes
+					pk := packs[s.O]
+					id, _ := plumbing.FromBytes(pk[len(pk)-20:])
+					if err := st.DeleteOldObjectPackAndIndex(id, time.Time{}); err != nil {
+						fail(i, "droppack|error|"+normErr(err), fmt.Sprintf("DeleteOldObjectPackAndIndex failed: %v", err))
+						ok = false
+						continue
 					}
 				case "close":
 					if err := open[s.W].Close(); err != nil {
